@@ -542,6 +542,118 @@ def run_loudness(res):
             res["sets"].setdefault("loudness_exceptions", set()).add("%s: %s" % (name, type(e).__name__))
 
 
+def protocol_programs():
+    """Plain-Python idioms applied to a traced 1-D array (and to containers of traced values): builtins that
+    iterate / index / compare / copy. Each either propagates the derivative exactly or raises."""
+    import copy
+    import functools
+    import math
+    import operator
+
+    import autograd.numpy as anp  # noqa: F401 (xp is passed in)
+
+    P_ = {
+        "builtin_sum": lambda xp, a: sum(a) * a[0],
+        "builtin_max_min": lambda xp, a: max(a) * min(a),
+        "sorted": lambda xp, a: sorted(a)[1] * a[0],
+        "star_unpack": lambda xp, a: (lambda p, q, r: p * q + r)(*a),
+        "reduce_mul": lambda xp, a: functools.reduce(operator.mul, a),
+        "math_prod": lambda xp, a: math.prod(a),
+        "enumerate": lambda xp, a: sum(i * v * v for i, v in enumerate(a)),
+        "listcomp_array": lambda xp, a: xp.sum(xp.array([v**2 for v in a])),
+        "zip_reversed": lambda xp, a: sum(p * q for p, q in zip(a, a[::-1])),
+        "reversed": lambda xp, a: list(reversed(a))[0] * a[1],
+        "copy_copy": lambda xp, a: xp.sum(copy.copy(a) ** 2),
+        "deepcopy": lambda xp, a: xp.sum(copy.deepcopy(a) ** 2),
+        "deepcopy_and_original": lambda xp, a: xp.sum(copy.deepcopy(a) * a),
+        "deepcopy_of_dict": lambda xp, a: (lambda d: d["w"][0] * a[1] + d["b"])(copy.deepcopy({"w": a * 2.0, "b": a[2]})),
+        "deepcopy_element": lambda xp, a: copy.deepcopy(a[0]) * a[0] * a[1],
+        "copy_of_list": lambda xp, a: (lambda l: l[0] * l[1] * a[2])(copy.copy([a[0], a[1]])),
+        "builtin_abs": lambda xp, a: xp.sum(abs(a)),
+        "builtin_pow": lambda xp, a: xp.sum(pow(a, 3)),
+        "dict_values_sum": lambda xp, a: sum({"p": a[0], "q": a[1] * a[2]}.values()),
+        "tolist": lambda xp, a: a.tolist()[0] * a[1],
+        "item": lambda xp, a: a[0].item() * a[1],
+        "float_of_element": lambda xp, a: float(a[0]) * a[1],
+        "npfloat_of_element": lambda xp, a: onp.float64(a[0]) * a[1],
+        "onp_asarray": lambda xp, a: xp.sum(onp.asarray(a) * a),
+        "fstring_roundtrip": lambda xp, a: float("%r" % (a[0],)) * a[1] if not hasattr(a[0], "_value") else float(str(a[0])) * a[1],
+        "iterate_rows": lambda xp, a: sum(xp.sum(r) * k for k, r in enumerate(xp.reshape(xp.concatenate([a, a * a]), (2, 3)))),
+        "conditional_expr": lambda xp, a: (a[0] if a[1] < 0 else a[2]) * a[1],
+        "tuple_compare_len": lambda xp, a: a[0] * a[1] if len(a) == 3 and a.shape == (3,) else 0.0 * a[0],
+        "slice_then_unpack": lambda xp, a: (lambda p, q: p * p * q)(*a[1:]),
+        "pickle_roundtrip": lambda xp, a: xp.sum(__import__("pickle").loads(__import__("pickle").dumps(a)) ** 2),
+        "operator_itemgetter": lambda xp, a: operator.itemgetter(2, 0)(a)[0] * a[1],
+        "map_lambda": lambda xp, a: sum(map(lambda v: v * v * v, a)),
+        "divmod": lambda xp, a: divmod(a, 0.7)[1][0] * a[1],
+        "round_builtin": lambda xp, a: round(a[0]) * a[1],
+    }
+    return P_
+
+
+def run_protocols(res, rng):
+    from autograd.core import make_jvp, make_vjp
+
+    import autograd.numpy as anp
+
+    x = onp.array([0.73, -1.31, 2.17])
+    for name, prog in protocol_programs().items():
+        try:
+            with warnings.catch_warnings():
+                warnings.simplefilter("ignore")
+                y0 = prog(onp, x.copy())
+            plain_ok = isinstance(y0, (float, onp.floating)) or (isinstance(y0, onp.ndarray) and y0.ndim == 0)
+        except Exception:
+            plain_ok = False
+        if not plain_ok:
+            res["not_judged"]["numpy_rejects_config"] = res["not_judged"].get("numpy_rejects_config", 0) + 1
+            continue
+        F = lambda xf: onp.array([float(prog(onp, onp.asarray(xf)))])
+        for mode in ("rev", "fwd"):
+            res["evaluations"] += 1
+            sig = {"engine": "battery", "family": "python_protocol", "prog": name, "mode": mode}
+            case = {"kind": "protocol", "prog": name, "mode": mode}
+            try:
+                with warnings.catch_warnings():
+                    warnings.simplefilter("ignore")
+                    if mode == "rev":
+                        vj, val = make_vjp(lambda t: prog(anp, t), x.copy())
+                        d = onp.asarray(vj(1.0), dtype=float)
+                    else:
+                        d = None
+                        tang = []
+                        for k in range(3):
+                            e = onp.zeros(3)
+                            e[k] = 1.0
+                            val, tk = make_jvp(lambda t: prog(anp, t), x.copy())(e)
+                            tang.append(float(tk))
+                        d = onp.array(tang)
+            except Exception as e:
+                res["counters"]["loud"] = res["counters"].get("loud", 0) + 1
+                res["judged"][sig_key(dict(sig, outcome="raised"))] = 1
+                res["sets"].setdefault("protocol_raises", set()).add("%s: %s" % (name, type(e).__name__))
+                continue
+            if find_boxes(val) or find_boxes(d):
+                res["violations"].append({"sig": dict(sig, symptom="tracer_leak"), "case": case, "detail": name})
+                continue
+            ref = []
+            okfd = True
+            for k in range(3):
+                e = onp.zeros(3)
+                e[k] = 1.0
+                fd = common.fd_directional(F, x, e)
+                okfd = okfd and fd.ok
+                ref.append(float(fd.val[0]) if fd.val is not None else onp.nan)
+            if not okfd:
+                res["not_judged"]["irregular_point"] = res["not_judged"].get("irregular_point", 0) + 1
+                continue
+            ref = onp.array(ref)
+            if d.shape != (3,) or not onp.allclose(d, ref, rtol=1e-6, atol=1e-8):
+                res["violations"].append({"sig": dict(sig, symptom="wrong_value"), "case": case, "detail": "%s: derivative %r but the plain program has %r" % (name, d.tolist(), ref.tolist())})
+                continue
+            res["judged"][sig_key(dict(sig, outcome="dependent"))] = 1
+
+
 def secondary_jobs(pid, tier, seed):
     """The unsupported-option catalogue and the loudness cases again under `python -O`: a guard written
     as an `assert` disappears there."""
@@ -582,6 +694,8 @@ def run_shard(pid, tier, seed, idx, n):
         run_box_attributes(res, onp.random.Generator(onp.random.PCG64([seed, 97])))
     if idx == 2 % n:
         run_loudness(res)
+    if idx == 3 % n:
+        run_protocols(res, onp.random.Generator(onp.random.PCG64([seed, 99])))
     res["sets"] = {k: sorted(v) for k, v in res["sets"].items()}
     return res
 
@@ -608,6 +722,9 @@ def replay(pid, case):
     elif k == "loudness":
         run_loudness(res)
         res["violations"] = [v for v in res["violations"] if v["case"]["name"] == case["name"]]
+    elif k == "protocol":
+        run_protocols(res, rng)
+        res["violations"] = [v for v in res["violations"] if v["case"] == case]
     else:
         run_box_attributes(res, rng)
         res["violations"] = [v for v in res["violations"] if v["case"].get("name") == case.get("name")]
